@@ -2,6 +2,7 @@ import PydraModel.DriverUtil
 import PydraModel.WfState.Spec
 import PydraModel.WfState.Model
 import PydraModel.WfState.Class
+import PydraModel.WfState.Simple
 open Lean PydraModel PydraModel.DriverUtil PydraModel.WfState
 
 /-! JSON-lines driver for engine `WfState` (C03).  Input: the harness' workflow case (see harness/engines/wfstate.py);
@@ -120,6 +121,6 @@ def handle (j : Json) : Json :=
       | .error (.crash c) => Json.mkObj [("error", .str (crashName c))]
       | .error (.unmodelled why) => Json.mkObj [("unmodelled", .str why)]
       | .error (.malformed why) => Json.mkObj [("malformed", .str why)]
-    Json.mkObj [("spec", spec), ("model", model), ("cls", Class.toJson w)]
+    Json.mkObj [("spec", spec), ("model", model), ("cls", (Class.toJson w).setObjVal! "simple" (Simple.simple w))]
 
 def main : IO Unit := run handle
